@@ -71,6 +71,33 @@ MUTANTS = [
     ("C16_grad", "C16", ["gradient:gradient"]),
 ]
 
+# source-level mutants (round 2): truncation thresholds computed from the wrong scale.
+# (name, file, old text, new text, property, clause tags of which at least one must be reported)
+SOURCE_MUTANTS = [
+    # permute: absolute threshold instead of relative to the local norm of the singular values
+    ("C10_permute_abs", "_extras.py", "rank_chop(S.numpy(), tn.linalg.norm(S).numpy()*eps)",
+     "rank_chop(S.numpy(), 1.0*eps)", "C10", ["permute:value"]),
+    # permute: threshold relative to the GLOBAL norm of the tensor (wrong for swaps away from position 0,
+    # where the local super-core is orthonormal and the norm sits in core 0)
+    ("C10_permute_global", "_extras.py", "rank_chop(S.numpy(), tn.linalg.norm(S).numpy()*eps)",
+     "rank_chop(S.numpy(), tn.linalg.norm(cores[0]).numpy()*eps)", "C10", ["permute:value"]),
+    # rounding (used by reshape): absolute threshold
+    ("C10_round_abs", "_decomposition.py", "rank_chop(S.numpy(),tn.linalg.norm(S).numpy()*eps)",
+     "rank_chop(S.numpy(),1.0*eps)", "C10", ["reshape:value"]),
+    # TT-SVD (used by reshape splits and to_qtt): absolute threshold
+    ("C10_ttsvd_abs", "_decomposition.py", "rank_chop(s.cpu().numpy(), ep*tn.linalg.norm(s).cpu().numpy())",
+     "rank_chop(s.cpu().numpy(), ep*1.0)", "C10", ["to_qtt:value", "reshape:value"]),
+    # DMRG products: absolute threshold
+    ("C11_dmrg_abs", "_dmrg.py", "(b.cpu()*eps/(d**(0.5 if last else 1.5))).numpy()",
+     "(0*b.cpu()+eps/(d**(0.5 if last else 1.5))).numpy()", "C11", ["fast_matvec:accuracy", "dmrg_hadamard:accuracy"]),
+    # AMEn products: absolute threshold.  INFORMATIONAL ONLY (not required to be caught): AMEn renormalises the local
+    # core (normx / nrmsc), so in all but the very first sweep the local norm is O(1), absolute == relative up to a
+    # factor <= 4, and the sweeps after the first one repair the early over-truncation: observationally equivalent mutant.
+    ("C11_amen_abs_equivalent", "_amen.py", "(norm_solution.cpu()\n                              * eps / (d**(0.5 if last else 1.5))).numpy()",
+     "(0*norm_solution.cpu()\n                              + eps / (d**(0.5 if last else 1.5))).numpy()", "C11",
+     ["amen_mv:accuracy", "amen_mm:accuracy"]),
+]
+
 
 def main():
     ap = argparse.ArgumentParser()
@@ -95,9 +122,32 @@ def main():
             results.append({"mutant": mut, "prop": prop, "expected_any_of": tags, "caught": caught,
                             "hits": {t: summary.get(t, 0) for t in tags}})
             print("%-10s %-4s %s %s" % (mut, prop, "CAUGHT" if caught else "MISSED", results[-1]["hits"]))
+        for mut, fname, old, new, prop, tags in SOURCE_MUTANTS:
+            sub = os.path.join(tmp, "src_" + mut)
+            shutil.copytree(os.path.join(ns.repo, "torchtt"), os.path.join(sub, "torchtt"),
+                            ignore=shutil.ignore_patterns("__pycache__"))
+            path = os.path.join(sub, "torchtt", fname)
+            with open(path) as fh:
+                text = fh.read()
+            applied = text.count(old)
+            with open(path, "w") as fh:
+                fh.write(text.replace(old, new))
+            env = dict(os.environ, PYTHONPATH=sub)
+            env.pop("RT_MUT", None)
+            out = subprocess.run([sys.executable, os.path.join(HERE, "rmode.py"), prop, "--tier", "quick", "--seed", "0",
+                                  "--repo", sub], env=env, capture_output=True, text=True)
+            lines = [l for l in out.stdout.splitlines() if l.startswith("RMODE-RESULT ")]
+            caught, summary = False, {}
+            if len(lines) == 1 and applied:
+                summary = json.loads(lines[0][len("RMODE-RESULT "):]).get("failure_summary", {})
+                caught = any(summary.get(t, 0) > 0 for t in tags)
+            results.append({"mutant": mut, "prop": prop, "expected_any_of": tags, "caught": caught,
+                            "sites_mutated": applied, "hits": {t: summary.get(t, 0) for t in tags},
+                            "all_failed_clauses": summary})
+            print("%-18s %-4s %s sites=%d %s" % (mut, prop, "CAUGHT" if caught else "MISSED", applied, results[-1]["hits"]))
     finally:
         shutil.rmtree(tmp, ignore_errors=True)
-    ok = all(r["caught"] for r in results)
+    ok = all(r["caught"] for r in results if not r["mutant"].endswith("_equivalent"))
     print("SELFTEST-RESULT " + json.dumps({"ok": ok, "mutants": results}))
     return 0 if ok else 1
 
